@@ -490,12 +490,6 @@ func (c *nxCluster) guarded(h *nxHost, crashAt int, f func()) {
 	}
 	c.settle(h)
 	c.flush(h)
-	return
-	if crashAt > 0 {
-		// the requested crash point does not exist in this step: nothing happened
-		return
-	}
-	c.settle(h)
 }
 
 func (c *nxCluster) restart(h *nxHost) {
